@@ -34,7 +34,7 @@ class _Base(BaseException):
 
 
 def budget(tier):
-    return {"quick": {"runs": 3000, "wall": 170}, "thorough": {"runs": 150000, "wall": 1500}}[tier]
+    return {"quick": {"runs": 3000, "wall": 170}, "thorough": {"runs": 36000, "wall": 900}}[tier]
 
 
 # ----------------------------------------------------------------------------------------------- service family
